@@ -112,6 +112,12 @@ func (r *Registers) WithByteOrder(byteOrder ByteOrder) *Registers {
 	return r
 }
 
+// registerCount returns the number of registers in the window. The subtraction is done in uint16 so that
+// a window ending at the last address (65535), for which endAddress wraps around to 0, has the right size.
+func (r Registers) registerCount() int {
+	return int(r.endAddress - r.startAddress)
+}
+
 // Register returns single register data (16bit) from given address
 func (r Registers) Register(address uint16) ([]byte, error) {
 	b, err := r.register(address)
@@ -125,10 +131,11 @@ func (r Registers) register(address uint16) ([]byte, error) {
 	if address < r.startAddress {
 		return nil, errors.New("address under startAddress bounds")
 	}
-	if address >= r.endAddress {
+	offset := int(address - r.startAddress)
+	if offset+1 > r.registerCount() {
 		return nil, errors.New("address over startAddress+quantity bounds")
 	}
-	startIndex := (address - r.startAddress) * 2
+	startIndex := offset * 2
 	return r.data[startIndex : startIndex+2], nil
 }
 
@@ -145,10 +152,11 @@ func (r Registers) doubleRegister(address uint16, byteOrder ByteOrder) ([]byte, 
 	if address < r.startAddress {
 		return nil, errors.New("address under startAddress bounds")
 	}
-	if address > (r.endAddress - 2) {
+	offset := int(address - r.startAddress)
+	if offset+2 > r.registerCount() {
 		return nil, errors.New("address over startAddress+quantity bounds")
 	}
-	startIndex := (address - r.startAddress) * 2
+	startIndex := offset * 2
 	if byteOrder&LowWordFirst != 0 {
 		// reverse words/registers order (low word first)
 		return []byte{
@@ -175,10 +183,11 @@ func (r Registers) quadRegister(address uint16, byteOrder ByteOrder) ([]byte, er
 	if address < r.startAddress {
 		return nil, errors.New("address under startAddress bounds")
 	}
-	if address > (r.endAddress - 4) {
+	offset := int(address - r.startAddress)
+	if offset+4 > r.registerCount() {
 		return nil, errors.New("address over startAddress+quantity bounds")
 	}
-	startIndex := (address - r.startAddress) * 2
+	startIndex := offset * 2
 	if byteOrder&LowWordFirst != 0 {
 		// reverse words/registers order (low word first)
 		return []byte{
@@ -458,14 +467,14 @@ func (r Registers) StringWithByteOrder(address uint16, length uint8, byteOrder B
 	if address < r.startAddress {
 		return "", errors.New("address under startAddress bounds")
 	}
-	startIndex := (address - r.startAddress) * 2
-	endIndex := startIndex + uint16(length)
+	startIndex := int(address-r.startAddress) * 2
+	endIndex := startIndex + int(length)
 	// length is bytes. but data is sent in registers (2 bytes) and in big endian format. so last character for odd size
 	// needs 1 more byte (it needs to be swapped)
 	if length%2 != 0 {
 		endIndex++
 	}
-	if int(endIndex) > len(r.data) {
+	if endIndex > len(r.data) {
 		return "", errors.New("address over data bounds")
 	}
 
